@@ -203,7 +203,9 @@ BENIGN_STDLIB = [("collections", "OrderedDict"), ("datetime", "date"), ("decimal
                  ("pathlib", "PurePosixPath"), ("copyreg", "_reconstructor"), ("_codecs", "encode")]
 NONSTD = [("vp_sink", "hit"), ("vp_sink", "K"), ("vp_canary_0", "f"), ("vp_canary_1.sub", "g"),
           ("numpy", "dtype"), ("numpy.core.multiarray", "_reconstruct"), ("torch._utils", "_rebuild_tensor_v2"),
-          ("somepkg.mod", "Thing"), ("__main__", "Evil"), ("pip", "main")]
+          ("somepkg.mod", "Thing"), ("pip", "main")]
+# ("__main__", X) is deliberately not in the vocabulary: stdlib_list documents __main__ as a library
+# module while pickled classes living there are user code - a contested label is a don't-care.
 
 RESOLVE_OPS = ["GLOBAL", "STACK_GLOBAL", "INST"]
 CALL_OPS = ["REDUCE", "OBJ", "INST", "NEWOBJ", "NEWOBJ_EX"]
